@@ -33,7 +33,15 @@ def run_tlc(module, cfg, rundir, on_edge=None, workers=None, timeout=1800, env=N
     spec's Emit operator are decoded and handed to on_edge(dict)."""
     md = tempfile.mkdtemp(prefix="tlc-md-", dir=rundir)
     workers = workers or min(NCPU, 8)
-    cmd = ["java", "-XX:+UseParallelGC", "-Xmx" + heap]
+    # A deep stack for EVERY thread including the main thread, on which TLC evaluates the initial predicate and constant tables:
+    # JAVA_TOOL_OPTIONS reaches the JVM (worker threads) but not the launcher that creates the main thread, so the recursive
+    # operators of a specification overflowed the default 8 MB there - at a JIT-dependent depth, with every enclosing TLCEval
+    # re-wrapping the error for minutes.  The flag on the command line covers both.
+    xss = "512m"
+    m = re.search(r"-Xss(\d+[kmgKMG])", (env or {}).get("JAVA_TOOL_OPTIONS", "") + " " + os.environ.get("JAVA_TOOL_OPTIONS", ""))
+    if m:
+        xss = m.group(1)
+    cmd = ["java", "-Xss" + xss, "-XX:+UseParallelGC", "-Xmx" + heap]
     if depth_first:
         cmd.append("-Dtlc2.tool.queue.IStateQueue=StateDeque")
     cmd += ["-cp", "/opt/veriftools/tla/tla2tools.jar:/opt/veriftools/tla/CommunityModules-deps.jar", "tlc2.TLC"]
